@@ -20,6 +20,11 @@ def queries(ctx):
         qs.append(Q("ind_" + name, ["ha.c"], defs=["MODE=0", "OP=%d" % op, "VP_NDATA=3"], unwind=5, unwind_fn={"parsec_atomic_lock": 2, "data_repo_create_nothreadsafe": 17}, patches=PATCH, units=[U, H], object_bits=10,
                     info={"symbolic": ["pre-state: entry absent / present with retained 0..3, usagecnt, usagelmt 0..1000 (INV)", "announced limit 0..1000", "nbdata 1..3"],
                           "enumerated": ["operation kind = " + name], "bounds": {"keys": 1}, "functions": FUNCS, "stubs": STUBS}))
+    qs.append(Q("create_vs_racing_creator", ["ha.c"], defs=["MODE=2", "VP_NDATA=3"], unwind=5, unwind_fn={"parsec_atomic_lock": 2, "data_repo_create_nothreadsafe": 17}, patches=PATCH, units=[U, H], object_bits=10,
+                info={"symbolic": ["pre-state as in the inductive queries", "environment between the two critical sections of lookup_entry_and_create: nothing | foreign create [+ foreign used_once] [+ foreign addto_usage_limit(0..2), possibly reclaiming]",
+                                   "then optionally used_once, then this creator's addto_usage_limit(0..3)", "nbdata 1..3"],
+                      "bounds": {"keys": 1, "foreign creators": 1}, "functions": FUNCS,
+                      "stubs": STUBS + ["environment = another creator modelled atomically by the harness inside the stub's unlock (the real two-thread race is conc_create_addto_x2_r2, thorough)"]}))
     for K in ((6, 8, 10) if ctx.thorough else (6,)):
         qs.append(Q("history_k%d" % K, ["ha.c"], defs=["MODE=1", "K=%d" % K, "VP_NDATA=3"], unwind=K + 1, unwind_fn={"parsec_atomic_lock": 2, "data_repo_create_nothreadsafe": 17}, patches=PATCH, units=[U, H], object_bits=10,
                     tiers=("quick", "thorough") if K == 6 else ("thorough",),
@@ -51,11 +56,14 @@ def mutants(ctx):
       Mutant("addto_free_without_remove", U, "        parsec_hash_table_nolock_remove_handle(&repo->table, &kh);\n        parsec_hash_table_unlock_bucket_handle(&repo->table, &kh);\n        parsec_thread_mempool_free(e->data_repo_mempool_owner, e );",
              "        parsec_hash_table_unlock_bucket_handle(&repo->table, &kh);\n        parsec_thread_mempool_free(e->data_repo_mempool_owner, e );", queries=["ind_addto_usage_limit"]),
       Mutant("create_clears_one_data_too_many", U, "    for(i = 0; i < repo->nbdata; e->data[i] = NULL, i++);", "    for(i = 0; i <= repo->nbdata; e->data[i] = NULL, i++);", queries=["ind_create"]),
+      Mutant("create_recheck_forgets_retain", U, "        parsec_thread_mempool_free( e->data_repo_mempool_owner, (void*) e );\n        e2->retained++; /* Until we update the usage limit */", "        parsec_thread_mempool_free( e->data_repo_mempool_owner, (void*) e );", queries=["create_vs_racing_creator"]),
+      Mutant("create_no_recheck", U, "    e2 = (data_repo_entry_t*)parsec_hash_table_nolock_find_handle(&repo->table, &kh);\n    if( NULL != e2 ) {", "    e2 = NULL;\n    if( NULL != e2 ) {", queries=["create_vs_racing_creator"]),
+      Mutant("create_loser_not_freed", U, "        parsec_thread_mempool_free( e->data_repo_mempool_owner, (void*) e );\n        e2->retained++;", "        e2->retained++;", queries=["create_vs_racing_creator"]),
       Mutant("used_once_unlocks_before_test", U, "    r = parsec_atomic_fetch_inc_int32(&e->usagecnt) + 1;\n", "    r = parsec_atomic_fetch_inc_int32(&e->usagecnt) + 1;\n    parsec_hash_table_unlock_bucket_handle(&repo->table, &kh); parsec_hash_table_lock_bucket_handle(&repo->table, key, &kh);\n", queries=["conc_addto_vs_used_used_r3"]),
     ] + ([
       # concurrency mutants visible only to the thorough-tier Engine S queries
-      Mutant("create_no_recheck", U, "    e2 = (data_repo_entry_t*)parsec_hash_table_nolock_find_handle(&repo->table, &kh);\n    if( NULL != e2 ) {", "    e2 = NULL;\n    if( NULL != e2 ) {", queries=["conc_create_addto_x2_r2"]),
-      Mutant("create_loser_not_freed", U, "        parsec_thread_mempool_free( e->data_repo_mempool_owner, (void*) e );\n        e2->retained++;", "        e2->retained++;", queries=["conc_create_addto_x2_r2"]),
+      Mutant("create_no_recheck_2threads", U, "    e2 = (data_repo_entry_t*)parsec_hash_table_nolock_find_handle(&repo->table, &kh);\n    if( NULL != e2 ) {", "    e2 = NULL;\n    if( NULL != e2 ) {", queries=["conc_create_addto_x2_r2"]),
+      Mutant("create_loser_not_freed_2threads", U, "        parsec_thread_mempool_free( e->data_repo_mempool_owner, (void*) e );\n        e2->retained++;", "        e2->retained++;", queries=["conc_create_addto_x2_r2"]),
     ] if ctx.thorough else [])
 CLAIMED = True
 MANIFEST = {
